@@ -1405,8 +1405,11 @@ fn function_type(input: Span) -> IResult<Span, Type> {
 
 fn function_input_type(input: Span) -> IResult<Span, Type> {
     alt((
-        partial_type, // Must come before grouping parentheses
+        // Grouping parentheses before `partial_type`: the two never accept the same text (a
+        // partial is empty or has a `name:` field, which is not a type), and trying the partial
+        // first parsed the whole parenthesised text twice per nesting level (exponential time).
         delimited(pair(char('('), ws0), type_definition, pair(ws0, char(')'))),
+        partial_type,
         tuple_type,
         resource_type,
         type_cycle,
@@ -1419,8 +1422,11 @@ fn function_input_type(input: Span) -> IResult<Span, Type> {
 
 fn function_output_type(input: Span) -> IResult<Span, Type> {
     alt((
-        partial_type, // Must come before grouping parentheses
+        // Grouping parentheses before `partial_type`: the two never accept the same text (a
+        // partial is empty or has a `name:` field, which is not a type), and trying the partial
+        // first parsed the whole parenthesised text twice per nesting level (exponential time).
         delimited(pair(char('('), ws0), type_definition, pair(ws0, char(')'))),
+        partial_type,
         tuple_type,
         resource_type,
         type_cycle,
@@ -1434,13 +1440,15 @@ fn function_output_type(input: Span) -> IResult<Span, Type> {
 fn base_type(input: Span) -> IResult<Span, Type> {
     alt((
         tuple_type,
-        partial_type,  // Must come before grouping parentheses to have priority
+        // Grouping parentheses before `partial_type` (see `function_input_type`): they are
+        // disjoint, and this order parses a parenthesised type once instead of twice per level.
+        delimited(pair(char('('), ws0), type_definition, pair(ws0, char(')'))),
+        partial_type,
         resource_type, // Must come before type_identifier to match \Resource
         type_cycle,
         process_type,
         type_parameter, // Must come before type_identifier to match <'t> before trying identifier
         module_type,    // Must come before type_identifier to match '% before trying identifier
-        delimited(pair(char('('), ws0), type_definition, pair(ws0, char(')'))),
         type_identifier,
         self_default_type, // Bare `'`; after type_identifier/module_type so `'int`/`'%mod` win
     ))(input)
